@@ -62,7 +62,7 @@ def check(rep, model, tier):
                          no_inline=tuple(names))
         site = f'{fn.path}:{fn.node.lineno} compute_burst_features[cycles,{centre}]'
         if res is None or res[0] != 'table':
-            rep.unresolved('WIRING', centre, site, f'result is not a table: {T.brief(res) if res else None}')
+            rep.violation('WIRING', centre, site, expected='a table with the four burst-feature columns', found=T.brief(res, 200) if res else 'no value is returned on this path (raises)')
             continue
         cols = dict(res[1])
         want = {}
